@@ -1,10 +1,441 @@
-(* Proofs/C15.v — conditional aggregation. *)
+(* Proofs/C15.v — conditional aggregation (Model/Criteria.v): the ?/* matcher
+   against a declarative definition, the meaning of a criterion, the index
+   set computed by handle_ifs, commutation, IFS = IF, the =x / <>x partition,
+   AVERAGEIFS = SUMIFS / COUNTIFS. *)
 From Coq Require Import ZArith QArith List Bool Lia Permutation.
 From PV Require Import Lib.Py Proofs.PyTac Model.Criteria.
 From PV Require Gen.excelutil.
 Import ListNotations.
 Open Scope Z_scope.
 
-Lemma sumif_is_sumifs rng crit sr : sr <> VNone ->
-  sumif rng crit sr = sumifs sr [rng; crit].
-Proof. intros H. unfold sumif. destruct sr; congruence. Qed.
+(* ------------------------------------------------------------------ glob *)
+(* declarative: ? matches one character, * any sequence, anything else itself *)
+Inductive Glob : str -> str -> Prop :=
+| G_nil : Glob [] []
+| G_one p s c : Glob p s -> Glob (63 :: p) (c :: s)
+| G_star_empty p s : Glob p s -> Glob (42 :: p) s
+| G_star_more p s c : Glob (42 :: p) s -> Glob (42 :: p) (c :: s)
+| G_lit p s c : c <> 42 -> Glob p s -> Glob (c :: p) (c :: s).
+
+Lemma glob_star p s :
+  glob_match (42 :: p) s
+  = glob_match p s || match s with [] => false | _ :: s' => glob_match (42 :: p) s' end.
+Proof. destruct s; reflexivity. Qed.
+
+Lemma glob_char c p d s : c <> 42 ->
+  glob_match (c :: p) (d :: s) = ((c =? 63) || (c =? d)) && glob_match p s.
+Proof.
+  intros H. cbn [glob_match].
+  replace (c =? 42) with false by (symmetry; apply Z.eqb_neq; exact H). reflexivity.
+Qed.
+Lemma glob_char_nil c p : c <> 42 -> glob_match (c :: p) [] = false.
+Proof.
+  intros H. cbn [glob_match].
+  replace (c =? 42) with false by (symmetry; apply Z.eqb_neq; exact H). reflexivity.
+Qed.
+
+Lemma glob_sound p : forall s, glob_match p s = true -> Glob p s.
+Proof.
+  induction p as [|c p IHp]; intros s.
+  - destruct s; cbn; [constructor|discriminate].
+  - destruct (Z.eq_dec c 42) as [->|Hc].
+    + induction s as [|d s IHs]; rewrite glob_star; intros H; apply orb_true_iff in H.
+      * destruct H as [H|H]; [|discriminate]. apply G_star_empty. apply IHp. exact H.
+      * destruct H as [H|H]; [apply G_star_empty; apply IHp; exact H|].
+        apply G_star_more. apply IHs. exact H.
+    + destruct s as [|d s]; [rewrite glob_char_nil by exact Hc; discriminate|].
+      rewrite glob_char by exact Hc. intros H. apply andb_true_iff in H. destruct H as [H1 H2].
+      apply orb_true_iff in H1. destruct H1 as [H1|H1].
+      * apply Z.eqb_eq in H1. subst c. apply G_one. apply IHp. exact H2.
+      * apply Z.eqb_eq in H1. subst d. apply G_lit; [exact Hc|]. apply IHp. exact H2.
+Qed.
+
+Lemma glob_complete p s : Glob p s -> glob_match p s = true.
+Proof.
+  induction 1 as [|p s c _ IH|p s _ IH|p s c _ IH|p s c Hc _ IH].
+  - reflexivity.
+  - rewrite glob_char by lia. rewrite IH. reflexivity.
+  - rewrite glob_star. rewrite IH. reflexivity.
+  - rewrite glob_star. rewrite IH. apply orb_true_r.
+  - rewrite glob_char by exact Hc. rewrite IH, Z.eqb_refl, orb_true_r. reflexivity.
+Qed.
+
+Lemma glob_spec p s : glob_match p s = true <-> Glob p s.
+Proof. split; [apply glob_sound | apply glob_complete]. Qed.
+
+Example glob_ex1 : glob_match [97; 42] [97; 112; 112; 108; 101] = true.
+Proof. reflexivity. Qed.
+Example glob_ex2 : glob_match [63; 112; 42; 101] [97; 112; 101] = true.
+Proof. reflexivity. Qed.
+Example glob_ex3 : glob_match [63; 112] [97; 112; 101] = false.
+Proof. reflexivity. Qed.
+
+(* ------------------------------------------ the meaning of a criterion *)
+Definition Sat (c : criterion) (x : pyval) : Prop :=
+  match c with
+  | CNumEq n =>            (* the cell stands for a number equal to n *)
+      exists v, is_num x = Ok true /\ to_num x = Ok v /\ py_eq v n = true
+  | CWild p =>             (* text whose lower-cased form matches the pattern *)
+      exists s w, x = VStr s /\ lower_str s = Ok w /\ Glob p w
+  | COpNum o n =>          (* text and blank satisfy only <>; numbers compare *)
+      match x with
+      | VStr _ | VNone => o = ONe
+      | _ => cmp_cop o x n = Ok true
+      end
+  | COpText o v =>         (* case-insensitive text comparison; non-text only <> *)
+      match x with
+      | VNone => (v = [] /\ o <> ONe) \/ (v <> [] /\ o = ONe)
+      | VStr s => exists w, lower_str s = Ok w /\ cmp_cop o (VStr w) (VStr v) = Ok true
+      | _ => o = ONe
+      end
+  end.
+
+Lemma is_ne_spec o b : Ok (is_ne o) = Ok b -> (b = true <-> o = ONe).
+Proof. intros H. injection H as <-. destruct o; cbn; split; congruence. Qed.
+
+Lemma sat_spec c x b : sat c x = Ok b -> (b = true <-> Sat c x).
+Proof.
+  destruct c as [n|p|o n|o v]; cbn [sat Sat].
+  - destruct (is_num x) as [[|]|e] eqn:E; cbn [bind]; [| |discriminate].
+    + destruct (to_num x) as [v|e] eqn:E2; cbn [bind]; [|discriminate].
+      intros H. injection H as <-. split.
+      * intros Hb. exists v. auto.
+      * intros (v' & _ & Hv & He). injection Hv as <-. exact He.
+    + intros H. injection H as <-. split; [discriminate|].
+      intros (v & Hc & _). discriminate.
+  - destruct x; try discriminate.
+    + intros H. injection H as <-. split; [discriminate|]. intros (s & w & Hx & _). discriminate.
+    + destruct (lower_str s) as [w|e] eqn:E; cbn [bind]; [|discriminate].
+      destruct (has_newline w); [discriminate|]. intros H. injection H as <-. split.
+      * intros Hg. exists s, w. repeat split; auto. apply glob_spec. exact Hg.
+      * intros (s' & w' & Hx & Hl & Hg). injection Hx as <-. rewrite E in Hl. injection Hl as <-.
+        apply glob_spec. exact Hg.
+  - destruct x; try discriminate; try apply is_ne_spec;
+      (intros H; rewrite H; split; [intros ->; reflexivity | intros H'; injection H' as ->; reflexivity]).
+  - destruct x; try apply is_ne_spec.
+    + intros H. injection H as <-. destruct v; destruct o; cbn; split; intros H;
+        try discriminate; try reflexivity;
+        try (left; split; [reflexivity|discriminate]);
+        try (right; split; [discriminate|reflexivity]);
+        destruct H as [[H1 H2]|[H1 H2]]; congruence.
+    + destruct (lower_str s) as [w|e] eqn:E; cbn [bind]; [|discriminate].
+      intros H. split.
+      * intros ->. exists w. auto.
+      * intros (w' & Hw & Hc). injection Hw as <-. rewrite H in Hc. injection Hc as ->. reflexivity.
+Qed.
+
+(* the property's words, on the executable check *)
+Lemma text_only_ne o n s : sat (COpNum o n) (VStr s) = Ok (is_ne o).
+Proof. reflexivity. Qed.
+Lemma blank_only_ne o n : sat (COpNum o n) VNone = Ok (is_ne o).
+Proof. reflexivity. Qed.
+Lemma number_compares o n z : sat (COpNum o n) (VInt z) = cmp_cop o (VInt z) n.
+Proof. reflexivity. Qed.
+Lemma text_case_insensitive a v : non_ascii a = false ->
+  sat (COpText OEq v) (VStr a) = Ok (str_eqb (map ascii_lower a) v).
+Proof.
+  intros H. cbn [sat]. unfold lower_str, str_lower. rewrite H. reflexivity.
+Qed.
+Lemma nontext_never_wild_eq o v z : sat (COpText o v) (VInt z) = Ok (is_ne o).
+Proof. reflexivity. Qed.
+
+(* ------------------------------------------------------ list machinery *)
+Definition okb {A} (f : A -> res bool) (x : A) : bool :=
+  match f x with Ok true => true | _ => false end.
+
+Lemma filterM_filter {A} (f : A -> res bool) l r :
+  filterM f l = Ok r -> r = filter (okb f) l /\ forall x, In x l -> exists b, f x = Ok b.
+Proof.
+  revert r. induction l as [|a l IH]; cbn [filterM filter]; intros r H.
+  - injection H as <-. split; [reflexivity|]. intros x [].
+  - destruct (f a) as [b|e] eqn:E; cbn [bind] in H; [|discriminate].
+    destruct (filterM f l) as [r'|e] eqn:E2; cbn [bind] in H; [|discriminate].
+    injection H as <-. destruct (IH r' eq_refl) as [-> Hall].
+    assert (Hb : okb f a = b) by (unfold okb; rewrite E; destruct b; reflexivity).
+    rewrite Hb. split.
+    + destruct b; reflexivity.
+    + intros x [<-|Hx]; eauto.
+Qed.
+
+Lemma okb_true {A} (f : A -> res bool) x : okb f x = true <-> f x = Ok true.
+Proof. unfold okb. destruct (f x) as [[|]|]; split; congruence. Qed.
+
+Lemma mapM_Forall2 {A B} (f : A -> res B) l ys :
+  mapM f l = Ok ys -> Forall2 (fun x y => f x = Ok y) l ys.
+Proof.
+  revert ys. induction l as [|a l IH]; cbn [mapM]; intros ys H.
+  - injection H as <-. constructor.
+  - destruct (f a) as [y|e] eqn:E; cbn [bind] in H; [|discriminate].
+    destruct (mapM f l) as [ys'|e] eqn:E2; cbn [bind] in H; [|discriminate].
+    injection H as <-. constructor; auto.
+Qed.
+Lemma Forall2_mapM {A B} (f : A -> res B) l ys :
+  Forall2 (fun x y => f x = Ok y) l ys -> mapM f l = Ok ys.
+Proof.
+  induction 1 as [|a y l ys H _ IH]; cbn [mapM]; [reflexivity|]. rewrite H. cbn [bind].
+  rewrite IH. reflexivity.
+Qed.
+Lemma forall2_length {A B} (R : A -> B -> Prop) l1 l2 : Forall2 R l1 l2 -> length l1 = length l2.
+Proof. induction 1; cbn; congruence. Qed.
+Lemma forall2_in_r {A B} (R : A -> B -> Prop) l1 l2 b :
+  Forall2 R l1 l2 -> In b l2 -> exists a, In a l1 /\ R a b.
+Proof.
+  induction 1 as [|x y l1 l2 Hxy _ IH]; cbn; intros Hb; [contradiction|].
+  destruct Hb as [<-|Hb]; [eauto|]. destruct (IH Hb) as (a & Ha & HR). eauto.
+Qed.
+Lemma mapM_length {A B} (f : A -> res B) l ys : mapM f l = Ok ys -> length ys = length l.
+Proof. intros H. apply mapM_Forall2 in H. symmetry. eapply forall2_length. exact H. Qed.
+
+Lemma nodup_app {A} (l1 l2 : list A) :
+  NoDup l1 -> NoDup l2 -> (forall x, In x l1 -> ~ In x l2) -> NoDup (l1 ++ l2).
+Proof.
+  induction l1 as [|a l1 IH]; cbn; intros H1 H2 H; [exact H2|].
+  inversion H1 as [|? ? Ha Hl]; subst. constructor.
+  - rewrite in_app_iff. intros [Hi|Hi]; [auto|]. eapply H; eauto.
+  - apply IH; auto.
+Qed.
+
+Lemma nodup_map_filter {A B} (g : A -> B) (f : A -> bool) l :
+  NoDup (map g l) -> NoDup (map g (filter f l)).
+Proof.
+  induction l as [|a l IH]; cbn; intros H; [constructor|].
+  inversion H as [|? ? Ha Hl]; subst. destruct (f a); cbn; [|auto].
+  constructor; [|auto]. intros Hin. apply Ha. apply in_map_iff in Hin.
+  destruct Hin as (y & Hy & Hin). apply filter_In in Hin. apply in_map_iff. exists y. tauto.
+Qed.
+
+Lemma filter_all {A} (f : A -> bool) l : (forall x, In x l -> f x = true) -> filter f l = l.
+Proof.
+  induction l as [|a l IH]; cbn; intros H; [reflexivity|].
+  rewrite (H a) by auto. f_equal. apply IH. auto.
+Qed.
+
+Lemma fst_unique {A B} (l : list (A * B)) i x y :
+  NoDup (map fst l) -> In (i, x) l -> In (i, y) l -> x = y.
+Proof.
+  induction l as [|[j z] l IH]; cbn; intros H Hx Hy; [contradiction|].
+  inversion H as [|? ? Ha Hl]; subst.
+  destruct Hx as [Hx|Hx]; destruct Hy as [Hy|Hy].
+  - congruence.
+  - injection Hx as -> ->. exfalso. apply Ha. apply in_map_iff. exists (i, y). auto.
+  - injection Hy as -> ->. exfalso. apply Ha. apply in_map_iff. exists (i, x). auto.
+  - auto.
+Qed.
+
+(* ------------------------------------------ positions of a range: distinct *)
+Lemma enum_row_In r c row i x : In (i, x) (enum_row r c row) -> fst i = r /\ c <= snd i.
+Proof.
+  revert c. induction row as [|a row IH]; cbn; intros c H; [contradiction|].
+  destruct H as [H|H].
+  - injection H as <- <-. cbn. lia.
+  - apply IH in H. lia.
+Qed.
+Lemma enum_row_NoDup r c row : NoDup (map fst (enum_row r c row)).
+Proof.
+  revert c. induction row as [|a row IH]; cbn; intros c; constructor; [|apply IH].
+  intros H. apply in_map_iff in H. destruct H as ((i, x) & Hi & Hin). cbn in Hi. subst i.
+  apply enum_row_In in Hin. cbn in Hin. lia.
+Qed.
+Lemma enum_rows_In r rows i x : In (i, x) (enum_rows r rows) -> r <= fst i.
+Proof.
+  revert r. induction rows as [|row rows IH]; cbn; intros r H; [contradiction|].
+  apply in_app_iff in H. destruct H as [H|H].
+  - apply enum_row_In in H. lia.
+  - apply IH in H. lia.
+Qed.
+Lemma enum_rows_NoDup r rows : NoDup (map fst (enum_rows r rows)).
+Proof.
+  revert r. induction rows as [|row rows IH]; cbn; intros r; [constructor|].
+  rewrite map_app. apply nodup_app; [apply enum_row_NoDup | apply IH |].
+  intros i H1 H2. apply in_map_iff in H1. destruct H1 as ((i1, x1) & E1 & H1). cbn in E1. subst i1.
+  apply in_map_iff in H2. destruct H2 as ((i2, x2) & E2 & H2). cbn in E2. subst i2.
+  apply enum_row_In in H1. apply enum_rows_In in H2. lia.
+Qed.
+
+(* ------------------------------------------------------ Counter, select *)
+Lemma idx_eqb_refl a : idx_eqb a a = true.
+Proof. unfold idx_eqb. destruct (idx_dec a a); congruence. Qed.
+Lemma idx_eqb_neq a b : a <> b -> idx_eqb a b = false.
+Proof. unfold idx_eqb. destruct (idx_dec a b); congruence. Qed.
+
+Lemma uniq_In l x : In x (uniq l) <-> In x l.
+Proof.
+  induction l as [|a l IH]; cbn; [tauto|]. split.
+  - intros [->|H]; [auto|]. apply filter_In in H. right. apply IH. tauto.
+  - intros [->|H]; [auto|]. destruct (idx_dec a x) as [->|Hn]; [auto|]. right.
+    apply filter_In. split; [apply IH; exact H|]. rewrite idx_eqb_neq by exact Hn. reflexivity.
+Qed.
+Lemma uniq_NoDup l : NoDup (uniq l).
+Proof.
+  induction l as [|a l IH]; cbn; constructor.
+  - intros H. apply filter_In in H. destruct H as [_ H]. rewrite idx_eqb_refl in H. discriminate.
+  - apply NoDup_filter. exact IH.
+Qed.
+Lemma uniq_nodup l : NoDup l -> uniq l = l.
+Proof.
+  induction l as [|a l IH]; cbn; intros H; [reflexivity|].
+  inversion H as [|? ? Ha Hl]; subst. rewrite IH by exact Hl. f_equal.
+  apply filter_all. intros x Hx. rewrite idx_eqb_neq; [reflexivity|]. intros ->. contradiction.
+Qed.
+
+Lemma select_filter k l :
+  select k (counter l) = filter (fun i => Nat.eqb (count_occ idx_dec l i) k) (uniq l).
+Proof.
+  unfold select, counter. induction (uniq l) as [|a u IH]; cbn; [reflexivity|].
+  destruct (Nat.eqb (count_occ idx_dec l a) k); cbn; rewrite IH; reflexivity.
+Qed.
+
+Lemma select_In k l i :
+  In i (select k (counter l)) <-> In i l /\ count_occ idx_dec l i = k.
+Proof.
+  rewrite select_filter, filter_In, uniq_In, Nat.eqb_eq. tauto.
+Qed.
+Lemma select_NoDup k l : NoDup (select k (counter l)).
+Proof. rewrite select_filter. apply NoDup_filter. apply uniq_NoDup. Qed.
+
+(* one duplicate-free list: Counter gives it back *)
+Lemma select1_nodup l : NoDup l -> select 1 (counter l) = l.
+Proof.
+  intros H. rewrite select_filter, (uniq_nodup l H). apply filter_all.
+  intros x Hx. apply Nat.eqb_eq. apply NoDup_count_occ'; assumption.
+Qed.
+
+Lemma count_concat_le ls i : (forall l, In l ls -> NoDup l) ->
+  (count_occ idx_dec (concat ls) i <= length ls)%nat.
+Proof.
+  induction ls as [|l ls IH]; cbn [concat length]; intros H; [cbn; lia|].
+  rewrite count_occ_app.
+  assert (H1 : (count_occ idx_dec l i <= 1)%nat).
+  { apply NoDup_count_occ. apply H. left. reflexivity. }
+  assert (H2 : (count_occ idx_dec (concat ls) i <= length ls)%nat).
+  { apply IH. intros l' Hl'. apply H. right. exact Hl'. }
+  lia.
+Qed.
+
+Lemma count_concat_all ls i : (forall l, In l ls -> NoDup l) ->
+  (count_occ idx_dec (concat ls) i = length ls <-> forall l, In l ls -> In i l).
+Proof.
+  induction ls as [|l ls IH]; cbn [concat length]; intros H.
+  - cbn. split; [intros _ l []|reflexivity].
+  - rewrite count_occ_app.
+    assert (H1 : (count_occ idx_dec l i <= 1)%nat).
+    { apply NoDup_count_occ. apply H. left. reflexivity. }
+    assert (Hls : forall l', In l' ls -> NoDup l') by (intros l' Hl'; apply H; right; exact Hl').
+    pose proof (count_concat_le ls i Hls) as H2.
+    specialize (IH Hls). split.
+    + intros Hs l' [<-|Hl'].
+      * apply (count_occ_In idx_dec). lia.
+      * apply IH; [lia|exact Hl'].
+    + intros Hall.
+      assert (Hi : In i l) by (apply Hall; left; reflexivity).
+      apply (count_occ_In idx_dec) in Hi.
+      assert (count_occ idx_dec (concat ls) i = length ls).
+      { apply IH. intros l' Hl'. apply Hall. right. exact Hl'. }
+      lia.
+Qed.
+
+Lemma Forall2_all {A B} (R : A -> B -> Prop) (P : A -> Prop) (Q : B -> Prop) l1 l2 :
+  Forall2 R l1 l2 -> (forall a b, R a b -> (P a <-> Q b)) ->
+  ((forall a, In a l1 -> P a) <-> (forall b, In b l2 -> Q b)).
+Proof.
+  intros HF HR. induction HF as [|a b l1 l2 Hab _ IH].
+  - split; intros _ ? [].
+  - split; intros H x [Hx|Hx].
+    + subst x. apply (HR a b Hab). apply H. left. reflexivity.
+    + apply IH; [|exact Hx]. intros a' Ha'. apply H. right. exact Ha'.
+    + subst x. apply (HR a b Hab). apply H. left. reflexivity.
+    + apply IH; [|exact Hx]. intros b' Hb'. apply H. right. exact Hb'.
+Qed.
+
+(* ------------------------------------------------ scanning one range *)
+Lemma find_cells_spec c cells l : NoDup (map fst cells) -> find_cells c cells = Ok l ->
+  NoDup l /\ (forall i, In i l <-> exists x, In (i, x) cells /\ Sat c x)
+  /\ (forall i x, In (i, x) cells -> exists b, sat c x = Ok b).
+Proof.
+  intros Hnd. unfold find_cells.
+  destruct (filterM (fun p => sat c (snd p)) cells) as [r|e] eqn:E; cbn [bind]; [|discriminate].
+  intros H. injection H as <-. apply filterM_filter in E. destruct E as [-> Hall]. split; [|split].
+  - apply nodup_map_filter. exact Hnd.
+  - intros i. rewrite in_map_iff. split.
+    + intros ((i', x) & Hi & Hin). cbn in Hi. subst i'. apply filter_In in Hin.
+      destruct Hin as [Hin Hs]. apply okb_true in Hs. cbn in Hs. exists x. split; [exact Hin|].
+      apply (sat_spec c x true Hs). reflexivity.
+    + intros (x & Hin & Hs). exists (i, x). split; [reflexivity|]. apply filter_In. split; [exact Hin|].
+      apply okb_true. cbn. destruct (Hall (i, x) Hin) as (b & Hb). cbn in Hb. rewrite Hb. f_equal.
+      apply (sat_spec c x b Hb). exact Hs.
+  - intros i x Hin. apply (Hall (i, x) Hin).
+Qed.
+
+Lemma scan_spec rows crit l : scan rows crit = Ok l ->
+  exists c, parse_criteria crit = Ok c /\ NoDup l
+            /\ forall i, In i l <-> exists x, In (i, x) (enum_rows 0 rows) /\ Sat c x.
+Proof.
+  unfold scan. destruct (parse_criteria crit) as [c|e]; cbn [bind]; [|discriminate].
+  intros H. apply find_cells_spec in H; [|apply enum_rows_NoDup].
+  exists c. destruct H as (H1 & H2 & _). auto.
+Qed.
+
+(* ---------------------- C15_select: the index set computed by handle_ifs *)
+(* cell i of the range [rows] satisfies the criterion value [crit] *)
+Definition cell_sat (i : idx) (rows : list (list pyval)) (crit : pyval) : Prop :=
+  exists c x, parse_criteria crit = Ok c /\ In (i, x) (enum_rows 0 rows) /\ Sat c x.
+
+Theorem select_sound prs coords : prs <> [] -> select_stage prs = Ok coords ->
+  NoDup coords
+  /\ forall i, In i coords <-> (forall rows crit, In (rows, crit) prs -> cell_sat i rows crit).
+Proof.
+  intros Hne. unfold select_stage.
+  destruct (mapM (fun p => scan (fst p) (snd p)) prs) as [ls|e] eqn:E; cbn [bind]; [|discriminate].
+  intros H. injection H as <-. split; [apply select_NoDup|]. intros i.
+  apply mapM_Forall2 in E.
+  assert (Hlen : length prs = length ls) by (eapply forall2_length; exact E).
+  assert (Hnd : forall l, In l ls -> NoDup l).
+  { intros l Hl. destruct (forall2_in_r _ _ _ l E Hl) as (p & _ & Hp).
+    apply scan_spec in Hp. destruct Hp as (c & _ & Hn & _). exact Hn. }
+  rewrite select_In, Hlen.
+  assert (Hall : (forall l, In l ls -> In i l)
+                 <-> (forall p, In p prs -> cell_sat i (fst p) (snd p))).
+  { symmetry. apply (Forall2_all _ _ _ _ _ E). intros p l Hp. apply scan_spec in Hp.
+    destruct Hp as (c & Hc & _ & Hin). rewrite Hin. unfold cell_sat. split.
+    - intros (c' & x & Hc' & Hx & Hs). rewrite Hc in Hc'. injection Hc' as <-. eauto.
+    - intros (x & Hx & Hs). eauto. }
+  split.
+  - intros [_ Hc]. pose proof (proj1 (count_concat_all ls i Hnd) Hc) as Hc'.
+    intros rows crit Hin. apply (proj1 Hall Hc' (rows, crit) Hin).
+  - intros H.
+    assert (Hl : forall l, In l ls -> In i l).
+    { apply Hall. intros [rows crit] Hp. apply H. exact Hp. }
+    split; [|apply (count_concat_all ls i Hnd); exact Hl].
+    destruct ls as [|l ls']; [destruct prs; [congruence|discriminate]|].
+    cbn [concat]. apply in_app_iff. left. apply Hl. left. reflexivity.
+Qed.
+
+(* criteria pairs commute: any permutation selects the same set *)
+Lemma mapM_perm {A B} (f : A -> res B) l l' ys :
+  Permutation l l' -> mapM f l = Ok ys -> exists ys', mapM f l' = Ok ys'.
+Proof.
+  intros HP H. apply mapM_Forall2 in H.
+  assert (HF : Forall (fun x => exists y, f x = Ok y) l).
+  { clear HP. induction H; constructor; eauto. }
+  apply (Permutation_Forall HP) in HF. clear H HP.
+  induction HF as [|a l2 (y & Hy) _ (ys' & IH)]; [exists []; reflexivity|].
+  exists (y :: ys'). cbn [mapM]. rewrite Hy. cbn [bind]. rewrite IH. reflexivity.
+Qed.
+
+Theorem commute prs prs' a : prs <> [] -> Permutation prs prs' -> select_stage prs = Ok a ->
+  exists b, select_stage prs' = Ok b /\ NoDup b /\ forall i, In i a <-> In i b.
+Proof.
+  intros Hne HP Ha.
+  assert (Hne' : prs' <> []).
+  { intros ->. apply Permutation_sym, Permutation_nil in HP. contradiction. }
+  assert (Hb : exists b, select_stage prs' = Ok b).
+  { unfold select_stage in *.
+    destruct (mapM (fun p => scan (fst p) (snd p)) prs) as [ls|e] eqn:E; cbn [bind] in Ha; [|discriminate].
+    destruct (mapM_perm _ _ _ _ HP E) as (ls' & ->). cbn [bind]. eauto. }
+  destruct Hb as (b & Hb). exists b. split; [exact Hb|].
+  destruct (select_sound prs a Hne Ha) as [_ Ha'].
+  destruct (select_sound prs' b Hne' Hb) as [Hnd Hb']. split; [exact Hnd|].
+  intros i. rewrite Ha', Hb'. split; intros H rows crit Hin; apply H.
+  - eapply Permutation_in; [apply Permutation_sym; exact HP|exact Hin].
+  - eapply Permutation_in; [exact HP|exact Hin].
+Qed.
